@@ -1103,6 +1103,33 @@ class Component(System):
             meta['method'] = method
             meta.update(kwargs)
 
+    def _zero_irrelevant_dinputs(self, d_inputs):
+        """
+        Zero the reverse-mode contributions of a matrix-free component to irrelevant inputs.
+
+        A jacobian-based component never contributes to an irrelevant variable, because its
+        sub-jacobians with an irrelevant 'of' or 'wrt' are skipped.  A matrix-free component
+        fills d_inputs itself, so the same entries have to be removed here; otherwise the
+        irrelevant source would get an off-diagonal entry in the linear operator while its own
+        (identity) sub-jacobian is skipped, and the reverse-mode linear system would be wrong.
+
+        Parameters
+        ----------
+        d_inputs : Vector
+            The d_inputs vector of this component, after the user function was called in rev mode.
+        """
+        relevance = self._relevance
+        if relevance is None or not relevance._active:
+            return
+        linslv = self._linear_solver
+        if linslv is not None and not linslv.use_relevance():
+            return
+        with relevance.all_seeds_active():
+            is_relevant = relevance.is_relevant
+            for name in d_inputs._names:
+                if not is_relevant(name):
+                    d_inputs._abs_get_val(name)[:] = 0.0
+
     def declare_partials(self, of, wrt, dependent=True, rows=None, cols=None, val=None,
                          method='exact', step=None, form=None, step_calc=None, minimum_step=None,
                          diagonal=None):
